@@ -9,6 +9,9 @@ CONSTANTS
   Stable = TRUE
   KeySet = {}
   ValSet = {}
+  HashVals = {}
+  IntKeys = {}
+  NegKeys = {}
   ShardCounts = {}
 INVARIANTS Total Accepted
 VIEW AView
